@@ -561,6 +561,39 @@ def run_case(ctx, spec, cases_k, cases_g, meta, kmeta, jit_cases, jit_meta, jt_c
             and np.allclose(P3, np.asarray(st_u.pred_mat), rtol=1e-10, atol=1e-12 * (1 + float(np.max(np.abs(P3)))))):
         viol("state after sample_and_update differs from update(feature, sampled target)", "sample_and_update_state")
 
+    # ---- input dtypes: states built through the public constructor from float32 / int64 / bool features (unit-cube
+    # corners, one-hot encodings), then updated with an interior float64 point: the updated state must be the
+    # posterior of concatenate([X, x_new]) in float64
+    dt = random.Random("dtype" + repr(spec["X"])).choice(["float32", "int64", "bool", "float64"])
+    Xd = X.astype(np.float32) if dt == "float32" else (X.copy() if dt == "float64" else np.round(X).astype(dt))
+    Xd64 = Xd.astype(np.float64)
+    xin = np.clip(xnew, 0.05, 0.95) * 0.9 + 0.037            # interior point, not representable as int / bool
+    ctx.h("feature_dtype", dt)
+    try:
+        st_d = IncrementalUpdateGPPosteriorState(Xd.copy(), Y.copy(), meanf, kernel_arg, noise_arr)
+        st_d2 = st_d.update(xin.copy(), ynew.copy())
+        tz_, st_d3 = st_d.sample_and_update(xin.copy(), random_state=ScriptedNormal([np.zeros((1, m))]))
+        Xe_d = np.vstack([Xd64, xin])
+        for nm_, s_ in (("update", st_d2), ("sample_and_update", st_d3)):
+            if not np.array_equal(np.asarray(s_.features, dtype=np.float64), Xe_d):
+                viol("%s on a state built from %s features stores inputs %s for the new point %s"
+                     % (nm_, dt, np.asarray(s_.features)[-1].tolist(), xin.reshape(-1).tolist()),
+                     "update_input_dtype", dtype=dt, op=nm_)
+        st_ds = GaussProcPosteriorState(Xe_d, np.vstack([Y, ynew]), meanf, kernel_arg, noise_arr)
+        mu_u, var_u = [np.asarray(v) for v in st_d2.predict(Xt.copy())]
+        mu_s, var_s = [np.asarray(v) for v in st_ds.predict(Xt.copy())]
+        Ae_d = np.asarray(kern(Xe_d, Xe_d)) * cs2 + noise * np.eye(n + 1)
+        cond_d = float(np.linalg.cond(Ae_d))
+        rel_d = 1e-7 + 1e3 * EPS * cond_d + 4 * 5e-10 * cond_d
+        sc_d = 1.0 + float(np.max(np.abs(mu_s))) + float(np.max(np.abs(Y))) + abs(mval)
+        if not (np.all(np.abs(mu_u - mu_s) <= rel_d * sc_d) and np.all(np.abs(var_u.reshape(-1) - var_s.reshape(-1)) <= rel_d * (sc_d + float(np.max(kdiag))))):
+            viol("update of a state built from %s features with an interior float64 point differs from recomputing from "
+                 "scratch on concatenate([X, x_new]): mean %.3g, variance %.3g (tol %.3g)"
+                 % (dt, float(np.max(np.abs(mu_u - mu_s))), float(np.max(np.abs(var_u.reshape(-1) - var_s.reshape(-1)))),
+                    rel_d * sc_d), "update_input_dtype", dtype=dt, op="predict")
+    except (AssertionError, ValueError, IndexError, TypeError) as e:
+        viol("state classes fail on %s features: %r" % (dt, e), "update_input_dtype", dtype=dt, op="exception")
+
     # ---- a plain target VECTOR of shape (n,) handed to the state classes directly is one target column ---------
     if m == 1:
         try:
